@@ -43,7 +43,7 @@ def bounds(tier):
     if tier == "quick":
         return dict(tensors="2..3", max_rank=2, max_labels=4, max_out_rank=2, trees="all", sizes="unbounded Int >= 2; plus one (rotating) label == 1",
                     sliced="every subset of <=2 labels, singletons both sliced and projected, pairs one rotating mode, one removal order")
-    return dict(tensors="2..4", max_rank="3 (N<=3), 2 (N=4)", max_labels=4, max_out_rank=2, trees="all",
+    return dict(tensors="2..4", max_rank="N=2: 3; N=3: 2 (all) + 3 (every 25th); N=4: 2 (every 40th) + 5 fixed", max_labels=4, max_out_rank=2, trees="all",
                 sizes="unbounded Int >= 2, or ==1 for any subset of <=2 labels",
                 sliced="every subset of <=2 labels (<=3 for N<=3), sliced or projected, every removal order")
 
@@ -55,10 +55,11 @@ def items(tier, seed):
     else:
         sk = (
             skel.skeletons(2, 3, 4, 2, outputs="unordered")
-            + skel.skeletons(3, 3, 4, 2, max_positions=7, outputs="unordered")
-            + skel.skeletons(4, 2, 4, 2, max_positions=7, outputs="unordered")
+            + skel.skeletons(3, 2, 4, 2, outputs="unordered")
+            + [s_ for s_ in skel.skeletons(3, 3, 4, 2, max_positions=7, outputs="unordered") if max(map(len, s_[0])) == 3][::25]
+            + skel.skeletons(4, 2, 4, 2, max_positions=7, outputs="unordered")[::40]
         )
-        chunk = 10
+        chunk = 4
     its = [
         {"skeletons": [[list(a), b] for a, b in sk[i : i + chunk]], "tier": tier, "k": i}
         for i in range(0, len(sk), chunk)
